@@ -404,6 +404,11 @@ func (Engine) Shrink(planJSON json.RawMessage, last *sim.RunResult) []json.RawMe
 		q.MergeFail = false
 		emit(q)
 	}
+	if p.MergeFailN > 0 {
+		q := clone()
+		q.MergeFailN = 0
+		emit(q)
+	}
 	if p.ImportFail > 0 {
 		q := clone()
 		q.ImportFail = 0
